@@ -25,10 +25,19 @@ def scenarios(tier, seed):
     for b in bases:
         for i, ports in enumerate(profs if tier == "thorough" else profs[:2]):
             out.append(scenario("%s-p%d" % (b, i), b, ports, seed * 131 + i, tech=dict(tREFI=1800 + 37 * i)))
-    return out
+    from . import c02
+    return out + c02.lockstep_scenarios(tier, seed)[:2]
+
+
+def models(tier, seed):
+    from . import c02
+    return c02.models(tier, seed)
 
 
 def execute(sc, workdir):
+    if sc.get("kind") == "lockstep":
+        from . import c02
+        return c02._lockstep(sc, workdir)
     r = execute_core(sc, workdir, ID, ("dev",))
     r["nontrivial"] = [[sc["memtype"], sc["clk_khz"], k] for k in r["kinds"] if k in ("ACT", "PRE", "PREA", "RD", "WR", "REF", "ZQCS")]
     return r
